@@ -500,10 +500,31 @@ DeepStep == /\ pc = "deep"
                        /\ out' = [tree |-> Ref("a"), binds |-> binds]
             /\ pc' = "done" /\ UNCHANGED g
 
+\* ------------------------------------------------------------------ values that are no numbers (Mode = "nonfinite")
+\* NaN and the infinities reach Reduce through a valuer (and arise at fold time: Inf - Inf, 0 * Inf).  EvalSem has no such
+\* values, so these cases carry no expectation of the spec: the judge compares the real evaluator before and after.
+NFVals == {[t |-> "float", v |-> "NaN", e |-> 0], [t |-> "float", v |-> "+Inf", e |-> 0], [t |-> "float", v |-> "-Inf", e |-> 0],
+           [t |-> "float", v |-> "1", e |-> 0], [t |-> "float", v |-> "0", e |-> 0], [t |-> "int", v |-> "1"], [t |-> "uns", v |-> "1"]}
+NFForms == {"ab", "aab", "a0b", "apb"}
+NFTree(f, op) == CASE f = "ab" -> Bin(op, Ref("a"), Ref("b"))
+                   [] f = "aab" -> Bin(op, Paren(Bin("-", Ref("a"), Ref("a"))), Ref("b"))         \* Inf - Inf
+                   [] f = "a0b" -> Bin(op, Ref("b"), Bin("*", Ref("a"), Ref("c")))                \* Inf * 0 (c = 0.0)
+                   [] f = "apb" -> Bin("AND", Bin(op, Ref("a"), Ref("b")), Bin(">", Ref("d"), IntL("0")))
+NFStep == /\ pc = "nonfinite"
+          /\ \E f \in NFForms : \E op \in CmpOps \cup {"+", "-", "*", "/"} : \E x \in NFVals : \E y \in NFVals : \E atb \in {1, 2} :
+               /\ (f = "apb" => op \in CmpOps)
+               /\ LET tree == NFTree(f, op)
+                      binds == <<[n |-> "a", val |-> x, at |-> 1], [n |-> "b", val |-> y, at |-> atb],
+                                 [n |-> "c", val |-> [t |-> "float", v |-> "0", e |-> 0], at |-> 1], [n |-> "d", val |-> [t |-> "int", v |-> "5"], at |-> 2]>>
+                      c == [fam |-> "expr", sub |-> "nonfinite", via |-> "ast", tree |-> tree, binds |-> binds, depth |-> 2, alts |-> <<>>]
+                  IN /\ CSVWrite("%1$s", <<ToJson(c)>>, CaseFile)
+                     /\ out' = [tree |-> Ref("a"), binds |-> binds]
+          /\ pc' = "done" /\ UNCHANGED g
+
 Init == /\ g = G0 /\ out = NoOut
-        /\ pc = CASE Mode = "time" -> "time" [] Mode = "chain" -> "chain" [] Mode = "zone" -> "zone" [] Mode = "deep" -> "deep" [] OTHER -> "op"
+        /\ pc = CASE Mode = "time" -> "time" [] Mode = "chain" -> "chain" [] Mode = "zone" -> "zone" [] Mode = "deep" -> "deep" [] Mode = "nonfinite" -> "nonfinite" [] OTHER -> "op"
 Next == ChooseOp \/ ChooseCls \/ ChooseSide \/ ChooseTop \/ ChooseVal \/ ChooseForm \/ Fin \/ TimeStep
-        \/ DeepStep \/ ChainOps \/ ChainVars \/ ChainEvalStep \/ ChainFin \/ ZoneChoose \/ ZoneStep \/ Done
+        \/ DeepStep \/ NFStep \/ ChainOps \/ ChainVars \/ ChainEvalStep \/ ChainFin \/ ZoneChoose \/ ZoneStep \/ Done
 Spec == Init /\ [][Next]_vars
 
 \* ------------------------------------------------------------------ pass M invariants
